@@ -49,6 +49,7 @@ def check(seed, n):
     rng = random.Random(seed)
     violations = []
     evals = 0
+    seen = set()
     states = ["start", "middle", "finished", "pc-outside", "in-call", "weird-stack"]
     hist = {}
     for k in range(n):
@@ -66,6 +67,7 @@ def check(seed, n):
             done.append(line)
             out, errs, exc, cont = dbg.feed(shell, line)
             evals += 1
+            seen.add((state, line))
             hist[state] = hist.get(state, 0) + 1
             if exc:
                 violations.append({"property": "C14", "stream": "shellfuzz", "sig": "shell:" + line.split(" ")[0][:12] + ":" + exc.split(":")[0],
@@ -75,4 +77,4 @@ def check(seed, n):
                 break
             if cont is False:
                 break
-    return {"evaluations": evals, "violations": violations, "disagreements": [], "distribution": hist}
+    return {"evaluations": evals, "violations": violations, "disagreements": [], "distribution": hist, "distinct": len(seen)}
